@@ -449,6 +449,9 @@ def decide_and_report(prop, plan, ctx, verdicts, xchk, oracle, canary, audit, st
             path = RP.write_replay(prop, f"B:{prop}:oracle", rep)
             v = type("V", (), {"name": f"B:{prop}:oracle"})()
             violations.append((v, path, ""))
+    if isinstance(oracle, dict) and oracle.get("harness_error") and not violations:
+        ov = type("V", (), {"name": f"B:{prop}:oracle"})()
+        undecided.append((ov, "the property oracle could not run to the end on this tree: " + str(oracle.get("harness_error"))[:160]))
     exit_code = 0
     for v, k in known_hits:
         print(f"KNOWN-FINDING: property={prop} {k['text'] or v.name}")
